@@ -109,3 +109,49 @@ Example C10_nonvacuous :
   floor_div (Small (-2147483648)) (Small (-1)) = Ok (Big 2147483648) /\
   percent (Big (- 2 ^ 70 - 1)) (Small 7) = Ok (Small 4).
 Proof. repeat split; vm_compute; reflexivity. Qed.
+
+(* ---- the same statements about the function bodies translated from /repo's sources on this run ----
+   (tools/rs2v.py -> Extracted/RsInline.v, RsInt.v; primitives in Rs/Prelude.v).  `Require` without `Import`. *)
+From SV Require Rs.Prelude Rs.Proofs Extracted.RsInline Extracted.RsInt.
+
+Theorem C10_source_floor_div_exact : forall a b, wf a -> wf b ->
+  div_post (den a) (den b) (SV.Rs.Proofs.to_res (SV.Extracted.RsInt.rs_floor_div a b)).
+Proof. exact SV.Rs.Proofs.source_floor_div_exact. Qed.
+
+Theorem C10_source_percent_exact : forall a b, wf a -> wf b ->
+  mod_post (den a) (den b) (SV.Rs.Proofs.to_res (SV.Extracted.RsInt.rs_percent a b)).
+Proof. exact SV.Rs.Proofs.source_percent_exact. Qed.
+
+Theorem C10_source_shl_exact : forall a b, wf a -> wf b ->
+  shl_post (den a) (den b) (SV.Rs.Proofs.to_res (SV.Extracted.RsInt.rs_left_shift a b)).
+Proof. exact SV.Rs.Proofs.source_shl_exact. Qed.
+
+Theorem C10_source_shr_exact : forall a b, wf a -> wf b -> - 2 ^ u64max <= den a < 2 ^ u64max ->
+  shr_post (den a) (den b) (SV.Rs.Proofs.to_res (SV.Extracted.RsInt.rs_right_shift a b)).
+Proof. exact SV.Rs.Proofs.source_shr_exact. Qed.
+
+Theorem C10_source_abs_exact : forall a, wf a ->
+  wf (SV.Extracted.RsInt.rs_abs a) /\ den (SV.Extracted.RsInt.rs_abs a) = Z.abs (den a).
+Proof. exact SV.Rs.Proofs.source_abs_exact. Qed.
+
+Theorem C10_source_checked_ops : forall a b,
+  SV.Extracted.RsInline.rs_II_checked_add a b = (if in_inline (a + b) then Some (a + b) else None) /\
+  SV.Extracted.RsInline.rs_II_checked_sub a b = (if in_inline (a - b) then Some (a - b) else None) /\
+  SV.Extracted.RsInline.rs_II_checked_mul_i32 a b = (if in_inline (a * b) then Some (a * b) else None) /\
+  SV.Extracted.RsInline.rs_II_checked_neg a = (if in_inline (- a) then Some (- a) else None).
+Proof. exact SV.Rs.Proofs.source_checked_ops. Qed.
+
+(* `.unwrap()` in left_shift cannot panic; the anyhow!("unreachable") errors cannot be returned *)
+Theorem C10_source_no_panic : forall a b, wf a -> wf b ->
+  SV.Extracted.RsInt.rs_left_shift a b <> SV.Rs.Prelude.RErr SV.Rs.Prelude.E_Panic /\
+  SV.Extracted.RsInt.rs_floor_div a b <> SV.Rs.Prelude.RErr SV.Rs.Prelude.E_anyhow /\
+  SV.Extracted.RsInt.rs_percent a b <> SV.Rs.Prelude.RErr SV.Rs.Prelude.E_anyhow.
+Proof.
+  intros a b Ha Hb. repeat split.
+  - exact (SV.Rs.Proofs.rs_left_shift_no_panic a b Ha Hb).
+  - exact (SV.Rs.Proofs.rs_floor_div_no_unreachable a b Ha Hb).
+  - exact (SV.Rs.Proofs.rs_percent_no_unreachable a b Ha Hb).
+Qed.
+
+Theorem C10_source_min_max : SV.Extracted.RsInline.rs_II_min_max_for_bits SV.Rs.Prelude.InlineInt_BITS = (imin, imax).
+Proof. exact SV.Rs.Proofs.rs_min_max_for_bits_eq. Qed.
